@@ -158,7 +158,7 @@ def run_unit(unit, mode=None, canary=None, rlimit=30, threads=8):
     fails, und = parse_errors(p.stderr, gen, path)
     res.failures = fails
     res.undecided = und
-    if vr.get('encountered-vir-error') or (vr.get('encountered-error') and not fails and not und):
+    if (vr.get('encountered-vir-error') and not fails) or (vr.get('encountered-error') and not fails and not und):
         und.append('verus error: ' + p.stderr[-1500:])
     if und:
         res.status = 'undecided'
